@@ -27,6 +27,7 @@ Append_(st, n, ages) ==
     pv |-> [ptag |-> st.pv.ptag \o [i \in 1..n |-> Tag(new[i])]],
     npid |-> st.npid + n]
 Kill_(st, i)   == [st EXCEPT !.iv.alive[i] = FALSE]
+KillMany_(st, I) == [st EXCEPT !.iv.alive = [i \in 1..Len(@) |-> IF i \in I THEN FALSE ELSE @[i]]]      \* a whole set of positions at once (tracker, IBM)
 \* operational compactify: one masked copy per instance variable with a *copy* of the alive mask
 Compactify_(st) == LET m == st.iv.alive IN
    [st EXCEPT !.iv = [pid |-> Mask(st.iv.pid, m), alive |-> Mask(st.iv.alive, m),
